@@ -2,6 +2,7 @@
 shapes and symbolic messages.  Nothing in here looks at /repo: the spec is the input of
 both fin-protoc (as DSL text) and of the reference semantics (ref.py)."""
 import itertools, hashlib
+import re
 import z3
 from .core import bv
 
@@ -263,7 +264,11 @@ class Shape:
         h = hashlib.sha1(('%s|%s' % (self.salt, path)).encode()).digest()
         return h[0] % mod
 
+    RAGGED = ('ragged-last', 'ragged-first')
+
     def strlen(self, path, maxn=None):
+        if self.salt in self.RAGGED:
+            return min(self.s, maxn) if maxn is not None else self.s
         if self.salt is not None:
             m = (maxn if maxn is not None else self.s)
             return self._h(path, m + 1)
@@ -272,6 +277,14 @@ class Shape:
         return min(self.s, maxn) if maxn is not None else self.s
 
     def listlen(self, path):
+        if self.salt in self.RAGGED:
+            # ragged nesting: a list that lives inside a list element is EMPTY in the last (first) element of the enclosing list
+            # and has k elements in the others, so a message can end with an element that carries nothing but an empty list
+            idx = re.findall(r'\[(\d+)\]', path)
+            if not idx:
+                return self.k
+            i = int(idx[-1])
+            return 0 if i == (self.k - 1 if self.salt == 'ragged-last' else 0) else self.k
         if self.salt is not None:
             return self._h('L' + path, self.k + 1)
         return self.k
@@ -368,6 +381,19 @@ def shapes_for(tier, nalts=1):
         for sh in base:
             out.append(Shape(sh.s, sh.k, a, sh.salt))
     return out
+
+
+def has_nested_lists(spec, pk, inlist=False, depth=0):
+    """some list of the packet lives inside an element of another list"""
+    if depth > 6:
+        return False
+    for f in pk.fields:
+        sem = spec.resolve(f)
+        if f.repeat and inlist:
+            return True
+        if sem[0] == 'obj' and has_nested_lists(spec, sem[1], inlist or f.repeat, depth + 1):
+            return True
+    return False
 
 
 def count_alts(spec, packet):
@@ -648,6 +674,14 @@ def family(tier):
     add('cks_two_same_width', [Packet('Root', [F('checksum', 'Head', typ='u32', alg='ADLER32', spelling='inline'), F('basic', 'A', typ='u16'),
                                                 F('dyn', 'S', spelling='string'), F('checksum', 'Check', typ='u32', alg='CRC32', spelling='prefixed')], root=True)],
         opts(LittleEndian='true'), fam='checksum', note='two checksum fields of the same width and different algorithms in one packet')
+    for le in (None, 'true'):
+        for lp in (None, 'u8'):
+            add('nestlist_%s_%s' % (le, lp),
+                [Packet('Root', [F('basic', 'Seq', typ='u16'), F('obj', 'Levels', typ='Level', repeat=True), F('basic', 'Tail', typ='u16')], root=True),
+                 Packet('Level', [F('basic', 'Px', typ='u32'), F('basic', 'Qtys', typ='u16', repeat=True)])],
+                opts(LittleEndian=le, ArrayPrefixLenType=lp), note='a list of objects that hold a list themselves; the message may end with an element whose inner list is empty')
+    add('nestlist_inline', [Packet('Root', [F('inline', 'Legs', repeat=True, fields=[F('basic', 'Side', typ='u8'), F('dyn', 'Tags', spelling='string', repeat=True)])], root=True)],
+        opts(ArrayPrefixLenType='u8', StringPrefixLenType='u8'), note='repeated inline object whose last member is a list of strings; nothing follows the list')
     add('cks_inline_only', [Packet('Root', [F('basic', 'A', typ='u16'), F('dyn', 'S', spelling='string'),
                                             F('inline', 'Trailer', fields=[F('basic', 'Flags', typ='u8'), F('checksum', 'CheckSum', typ='u32', alg='CRC32', spelling='inline')])], root=True)],
         opts(), fam='checksum', note='the only calculated-from field of the program sits inside an inline object')
